@@ -124,6 +124,20 @@ def gen_cases(tier, seed):
                           'dims': list(r.choice([(2, 2), (2, 3), (3, 2)]))})
     finally:
         G.PREFS[:] = saved
+    # fixed exhibit of the open finding F9: delta_ij d^a_b + d^i_j delta_ab
+    dten = lambda p_, q_: {'t': 'anti', 'name': 'd', 'up': [p_], 'lo': [q_],  # noqa: E731,E501
+                           'bk': 0}
+    cases.append({'id': f'C17-{tier[0]}{seed}-F9-exhibit-kf',
+                  'terms': [{'pref': '1', 'objs': [{'t': 'delta',
+                                                    'up': ['i', 'j']},
+                                                   dten('a', 'b')]},
+                            {'pref': '1', 'objs': [dten('i', 'j'),
+                                                   {'t': 'delta',
+                                                    'up': ['a', 'b']}]}],
+                  'order': ['i', 'j', 'a', 'b'],
+                  'opts': {'anti': False, 'split': None, 'bk': 0,
+                           'backend': 'einsum', 'optimize': True, 'kw': {}},
+                  'mseed': 4711, 'dims': [2, 3]})
     return cases
 
 
